@@ -87,6 +87,12 @@ class Modes:
                 if pol:
                     out.add("spacetime=on")
                 return out
+            # any other argument-less query of the Einsum's spacetime object is a configuration
+            # fact of this compilation, just like the modes themselves
+            if self._subject(e.func.value) == "spacetime" and not e.args and not e.keywords:
+                out.add("st.%s()=%s" % (e.func.attr, "true" if pol else "false"))
+                out.add("spacetime=on")
+                return out
             # predicate method of the repo
             if pol and depth < 3:
                 for g in self.db.resolve_call(e, f):
@@ -94,6 +100,20 @@ class Modes:
                 return out
             if isinstance(e.func, ast.Name) or True:
                 pass
+        # a comparison built only from argument-less queries of the spacetime object and constants
+        # (len(<st>.get_space()) > 0, <st>.get_style(..) is excluded: it has an argument)
+        if isinstance(e, (ast.Compare, ast.Call)) and not out:
+            calls = [x for x in ast.walk(e) if isinstance(x, ast.Call) and isinstance(x.func, ast.Attribute)
+                     and self._subject(x.func.value) == "spacetime" and not x.args and not x.keywords]
+            if calls:
+                t = norm(e)
+                for c in calls:
+                    t = t.replace(norm(c.func.value), "<st>")
+                rest = {x.id for x in ast.walk(e) if isinstance(x, ast.Name)} - {"self", "len", "bool", "spacetime"}
+                if not rest and "self." not in t.replace("<st>", ""):
+                    out.add("st:%s=%s" % (t, "true" if pol else "false"))
+                    out.add("spacetime=on")
+                    return out
         if isinstance(e, ast.Call) and isinstance(e.func, ast.Name) and e.func.id == "isinstance" and pol \
                 and len(e.args) == 2 and isinstance(e.args[1], ast.Name):
             out |= self.node_kind_modes().get(e.args[1].id, set())
